@@ -50,7 +50,11 @@ def real_trace(kind, script, host=None):
             w.wait(5)
         else:
             for x in items:
-                w.enqueue(x)
+                try:
+                    w.enqueue(x)
+                except Exception:
+                    # an earlier (poison) item has already killed the worker: what follows would never be looked at anyway
+                    break
             w.wait(10)
         if kind != 'thread':
             pass
